@@ -44,6 +44,11 @@ def run(tier, seed):
             ri.append((sp, dict(o, resume_from=k)))
         ri.append((sp, dict(o, presim=1)))
         ri.append((sp, dict(o, backward=True, rev=True)))
+        # the very first call on a never-simulated model made with state initialisation off (e.g. to keep hand-set values)
+        ri.append((sp, dict(o, flags=[False, True])))
+        ri.append((sp, dict(o, flags=[False, False])))
+    ri += stepcheck.restarted_items(its[:: (9 if tier == "quick" else 4)], ks=(1, 2), flags=(True, False))
+    ri += stepcheck.resumed_edit_items(("worker-absence-append-3",), ks=(1, 2, 3))
     col.merge(stepcheck.explore(ri, MONS, 0, 0, seed=seed))
     lit = [(sp, {"rule": "TSLACK", "max_time": 20}) for sp in F.unsorted_absence_specs() + F.same_name_task_specs() + F.double_link_specs() + F.three_level_product_specs()]
     col.merge(stepcheck.explore(lit, MONS, 0, 0, seed=seed))
